@@ -1609,6 +1609,36 @@ class C11Machine(RuleBasedStateMachine):
             self.emit({"op": "reg", "st": stype, "fn": f, "pat": pat})
         self.emit({"op": "look", "st": stype if stype != "step" else "when", "text": w1 + " " + w2})
 
+    def _typed_defs(self):
+        return [d for d in self.model.all_defs() if d["pat"]["kind"] == self.model.kind and self.model.kind in PARSE_KINDS
+                and any(p.get("f") in CONVERTERS for p in fields_of(d["pat"]))]
+
+    @precondition(lambda self: bool(self._typed_defs()))
+    @rule(data=st.data(), fn=st.integers(0, NFUNCS - 1))
+    def redefine_type_then_same_pattern(self, data, fn):
+        """A type name used by a registered pattern gets another converter; then the SAME pattern text is registered
+        for another step type (two step modules, each with its own idea of the type) and looked up there."""
+        d = data.draw(st.sampled_from(self._typed_defs()))
+        name = [p["f"] for p in fields_of(d["pat"]) if p.get("f") in CONVERTERS][0]
+        op = {"op": "type", "name": name}
+        if name not in self.model.type_alt:
+            op["alt"] = True
+        self.emit(op)
+        stype = data.draw(st.sampled_from([t for t in STYPES if t != d["st"]]))
+        self.emit({"op": "reg", "st": stype, "fn": fn, "pat": copy.deepcopy(d["pat"])})
+        text, _args = build_text(d["pat"], data.draw(insts_st(d["pat"])))
+        self.emit({"op": "look", "st": stype if stype != "step" else "when", "text": text})
+
+    @rule(data=st.data(), stype=st.sampled_from(LOOK_TYPES), generic=st.booleans(), fn=st.integers(0, NFUNCS - 1))
+    def late_definition(self, data, stype, generic, fn):
+        """A step text is looked up (most likely in vain), THEN a definition for it is registered -- for its step type or
+        as a generic step, as a step library loaded on demand does -- and the text is looked up again."""
+        pat = data.draw(pattern_st(self.model.kind, sorted(self.model.types), lits=LIT_SMALL, max_fields=2))
+        text, _args = build_text(pat, data.draw(insts_st(pat)))
+        self.emit({"op": "look", "st": stype, "text": text})
+        self.emit({"op": "reg", "st": "step" if generic else stype, "fn": fn, "pat": pat})
+        self.emit({"op": "look", "st": stype, "text": text})
+
     @precondition(lambda self: bool(self.model.all_defs()))
     @rule(data=st.data())
     def lookup_registered(self, data):
